@@ -50,12 +50,13 @@ Checks that missed a change at first were strengthened (noted below the table); 
 |---|---|---|---|---|
 """ + "\n".join(rows) + """
 
-Ten rounds were run (20 + 20 + 16 + 20 + 20 + 20 + 20 + 20 + 20 + 9 = 185 changes; seeds `Cxx`, `R2-Cxx` ... `R10-Cxx`; round 10
-asked for ten properties only, and one delivery (C03) was dropped because it made a pinned test panic; from the
+Eleven rounds were run (20 + 20 + 16 + 20 + 20 + 20 + 20 + 20 + 20 + 9 + 10 = 195 changes; seeds `Cxx`, `R2-Cxx` ... `R11-Cxx`; rounds
+10 and 11 asked for ten properties each (together all twenty), and one delivery of round 10 (C03) was dropped because it made
+a pinned test panic; from the
 second round on the sub-agent was told, in one line each, the earlier ideas for the same property and asked for a different
 code site and mechanism; round 3 has 16 seeds because four sub-agents did not deliver a change that could be confirmed). The
 last column is the outcome of the matrix runs (`bin/seedmatrix`: checks against a scratch worktree with the patch, quick
-tier, after all strengthening; `seeded/matrix.json`). **Every one of the 185 changes is reported by the check of the
+tier, after all strengthening; `seeded/matrix.json`). **Every one of the 195 changes is reported by the check of the
 property it breaks**; most are also reported by neighbouring checks. First-time results, before strengthening (own check /
 any check): round 1 — 14 / 20 of 20; round 2 — 8 of 20; round 3 — 4 of 16 (3 by no check, one made the harness itself
 fail); round 4 — 9 of 20 (5 by no check); round 5 — 7 / 14 of 20; round 6 — 9 / 16 of 20 (four of the nine own-check hits
@@ -65,7 +66,7 @@ connections per node, a close with a backlog, traffic during the topology probe,
 round 8 — measured only in part, a harness rebuild disturbed the first matrix run (R8-C14 and R8-C04 pointed at two BLIND
 SPOTS of the harness — the stubbed redis client and the mirrored boot path, §3.1 — and R8-C18 at a third: a fresh watcher
 object per reload); round 9 — see `seeded/matrix.json`; round 10 — 2 of 9 by their own check (R10-C05, R10-C10), the other seven needed
-the families listed below. Several seeds repeat an earlier idea under another property
+the families listed below; round 11 — 5 of 10 (R11-C06, C08, C11, C14, C15). Several seeds repeat an earlier idea under another property
 (R6-C03 / R6-C15 / R6-C19, R7-C20 = R5-C14, R7-C04 = C05, R9-C01 = R8-C02, R9-C04 = R3-C20): they are kept because each is
 judged by a different check. Two sub-agents (rounds 5 and 9) reported, as a side remark, defects of the unchanged tree that
 the checks had not been asked about: the late redirect of a finished fragment (found independently while writing the C16
@@ -139,6 +140,15 @@ unchanged tree):
   its array-header / first bulk-header line (C19); an incomplete request of more than 32 MiB whose client hangs up —
   buffers of the top size class of the pools (C12, C19); a node lost for good — connection gone and every new dial
   refused — with later requests routed to it (C15).
+* round 11 — a third harness blind spot closed: `core.Run` itself (option defaulting: size limit, connections per node,
+  connect timeout) was never executed, `Scenario.RealRun` now starts the proxy through the real `Run()` with the values as
+  configured (rewriter: `initListener` -> the simulated listener, deferred listener close skipped) and C17 judges the
+  CONFIGURED limit (40 ... 5000 bytes, not configured) with one request of exactly the limit and one a byte above it;
+  replies of minimal size — a status / error line with empty text, alone and nested (C02); passwords made of bytes that
+  mean something to a formatter or the protocol (`%`, CR LF, braces, backslash) (C04); the real fsnotify watcher also
+  sees reloads that FAIL between two edits (text that is not YAML, the file moved away and back) and must still follow
+  the next edit (C18); the scripted nodes describe themselves as Redis 7 (`async_loading:0` after `loading:0` in INFO)
+  in every second C20 scenario.
 """ + own + "\n" + e3
 open(root+'/DESIGN.md','w').write(head+body+sec8+appA+app)
 print("DESIGN.md written,", len(open(root+'/DESIGN.md').read().splitlines()), "lines")
